@@ -145,6 +145,14 @@ def core_models(I, st, caller, func, args, argtys, dest_ty):
             return ret(st, z3.If(a >= b, a, b) if op == "max" else z3.If(a <= b, a, b))
     # ---- std::cmp::{max,min}::<T>: `match Ord::cmp(&a,&b) { Greater => a, _ => b }` (max), reverse for min
     m = re.match(r"^std::cmp::(max|min)::<(.*)>$", f)
+    m_ord = re.match(r"^<(.*) as Ord>::(max|min)$", f)
+    if m_ord and norm_type(m_ord.group(1)) not in INT_TYPES:
+        class _M:
+            def __init__(self, a, b):
+                self.a, self.b = a, b
+            def group(self, i):
+                return (None, self.a, self.b)[i]
+        m = _M(m_ord.group(2), m_ord.group(1))
     if m:
         T = m.group(2)
         if norm_type(T) in INT_TYPES:
@@ -240,6 +248,13 @@ def core_models(I, st, caller, func, args, argtys, dest_ty):
         return ret(st, I.load(st, args[0]))
     if re.match(r"^<(.*) as From<\1>>::from$", f) or re.match(r"^<(.*) as Into<\1>>::into$", f):
         return ret(st, args[0])
+    m = re.match(r"^<(%s) as TryFrom<(%s)>>::try_from$" % (INT, INT), f) or re.match(r"^<(%s) as TryInto<(%s)>>::try_into$" % (INT, INT), f)
+    if m:
+        dst = m.group(1) if "TryFrom" in f else m.group(2)
+        lo, hi = INT_TYPES[dst]
+        a = args[0]
+        ok = z3.And(a >= lo, a <= hi)
+        return ret(st, EnumV("Result", z3.If(ok, 0, 1), {0: (a,), 1: (Opaque("TryFromIntError"),)}))
     m = re.match(r"^<(%s) as From<(%s|bool)>>::from$" % (INT, INT), f)
     if m:
         a = args[0]
